@@ -243,19 +243,50 @@ theorem header_any (F : List Nat) (p : Nat) (h : p + 8 ≤ F.length) :
   rw [if_pos (by omega)]
   exact ⟨_, _, _, rfl⟩
 
+/-- a chunk header read anywhere inside the data, with the values it returns -/
+theorem header_explicit (F : List Nat) (p : Nat) (h : p + 8 ≤ F.length) :
+    readChunkHeader { data := F, pos := p } =
+      .ok (((F.drop p).take 4, le ((F.drop (p + 4)).take 4),
+            min (le ((F.drop (p + 4)).take 4) + le ((F.drop (p + 4)).take 4) % 2) (2 ^ 32 - 1)), { data := F, pos := p + 4 + 4 }) := by
+  unfold readChunkHeader readLE readExact
+  simp only
+  rw [if_pos (by omega)]
+  simp only
+  rw [if_pos (by omega)]
+
+/-- the (at most two) sub-chunk names `read_data` registers for the first frame, whose ANMF
+    payload is `D[s0, e0)`: the name at offset 16, and - if the frame has room for another
+    header - the name found after the first sub-chunk's (rounded) payload -/
+def frameSubNames (D : List Nat) (s0 e0 : Nat) : List (List Nat) :=
+  let sz1 := le ((D.drop (s0 + 16 + 4)).take 4)
+  let p2 := s0 + 16 + 8 + min (sz1 + sz1 % 2) (2 ^ 32 - 1)
+  if p2 + 8 > e0 then [(D.drop (s0 + 16)).take 4] else [(D.drop (s0 + 16)).take 4, (D.drop p2).take 4]
+
 theorem firstFrame_ok (D : List Nat) (s0 e0 p : Nat) (ch : Chunks) (h1 : s0 + 24 ≤ e0) (h2 : e0 ≤ D.length) :
-    ∃ ch' r', firstFrameSubchunks s0 e0 ch { data := D, pos := p } = .ok (ch', r') := by
+    ∃ ch' r', firstFrameSubchunks s0 e0 ch { data := D, pos := p } = .ok (ch', r') ∧
+      ∀ k, (∀ n ∈ frameSubNames D s0 e0, n ≠ k) → ch'.get? k = ch.get? k := by
   unfold firstFrameSubchunks
   simp only
-  obtain ⟨cc, sz, rd, e1⟩ := header_any D (s0 + 16) (by omega)
-  rw [e1]
+  rw [header_explicit D (s0 + 16) (by omega)]
   simp only
-  by_cases hend : s0 + 16 + 8 + rd + 8 > e0
-  · rw [if_pos hend]; exact ⟨_, _, rfl⟩
+  by_cases hend : s0 + 16 + 8 + min (le ((D.drop (s0 + 16 + 4)).take 4) + le ((D.drop (s0 + 16 + 4)).take 4) % 2) (2 ^ 32 - 1) + 8 > e0
+  · rw [if_pos hend]
+    refine ⟨_, _, rfl, fun k hk => ?_⟩
+    apply get_orInsert_other
+    apply hk
+    unfold frameSubNames
+    simp only
+    rw [if_pos hend]
+    exact List.mem_cons_self
   · rw [if_neg hend]
-    obtain ⟨cc2, sz2, rd2, e2⟩ := header_any D (s0 + 16 + 8) (by omega)
-    rw [e2]
-    exact ⟨_, _, rfl⟩
+    rw [header_explicit D _ (by omega)]
+    refine ⟨_, _, rfl, fun k hk => ?_⟩
+    have m1 : (D.drop (s0 + 16)).take 4 ∈ frameSubNames D s0 e0 := by
+      unfold frameSubNames; simp only; rw [if_neg hend]; exact List.mem_cons_self
+    have m2 : (D.drop (s0 + 16 + 8 + min (le ((D.drop (s0 + 16 + 4)).take 4) + le ((D.drop (s0 + 16 + 4)).take 4) % 2) (2 ^ 32 - 1))).take 4
+        ∈ frameSubNames D s0 e0 := by
+      unfold frameSubNames; simp only; rw [if_neg hend]; exact List.mem_cons_of_mem _ List.mem_cons_self
+    rw [get_orInsert_other _ _ _ _ (hk _ m2), get_orInsert_other _ _ _ _ (hk _ m1)]
 
 /-- the first frame of an item list -/
 theorem first_frame_split : ∀ items : List Item, 0 < numFrames items →
@@ -310,7 +341,10 @@ theorem open_animated (flags r0 r1 r2 cw ch : Nat) (items : List Item)
       info.loopDuration = durSum items % 2 ^ 64 ∧
       info.isLossy = (anyLossy items || has VP8 (chunksOf items)) ∧
       info.loopCount = bs.getD 4 0 + 256 * bs.getD 5 0 ∧
-      info.background = [bs.getD 2 0, bs.getD 1 0, bs.getD 0 0, bs.getD 3 0] := by
+      info.background = [bs.getD 2 0, bs.getD 1 0, bs.getD 0 0, bs.getD 3 0] ∧
+      (∀ s0 e0, firstRange ANMF 30 (chunksOf items) = some (s0, e0) →
+        ∀ k ∈ known, (∀ n ∈ frameSubNames (extendedFile flags r0 r1 r2 cw ch (chunksOf items)) s0 e0, n ≠ k) →
+          info.chunks.get? k = firstRange k 30 (chunksOf items)) := by
   generalize hcs : chunksOf items = cs at *
   obtain ⟨l1, l2, l3⟩ := fourcc_len
   -- the file, flattened
@@ -479,11 +513,16 @@ theorem open_animated (flags r0 r1 r2 cw ch : Nat) (items : List Item)
     simp only at hcl2
     rw [this, List.length_append, List.length_append, hcl2]
     omega
-  obtain ⟨ch', r'', hff⟩ := firstFrame_ok (pre30 ++ layout cs) (30 + (layout (chunksOf ps)).length + 8)
+  obtain ⟨ch', r'', hff, hprop⟩ := firstFrame_ok (pre30 ++ layout cs) (30 + (layout (chunksOf ps)).length + 8)
     (30 + (layout (chunksOf ps)).length + 8 + f.payload.length) (a + (b - a)) s'.chunks (by omega)
     (by rw [List.length_append, hpre30, hlaycs]; omega)
   rw [hff]
   simp only
-  exact ⟨_, c.2, rfl, ⟨c, hc, ec1, rfl⟩, rfl, rfl, rfl, rfl, rfl, e2, hld, by simp only; rw [e5], rfl, rfl⟩
+  refine ⟨_, c.2, rfl, ⟨c, hc, ec1, rfl⟩, rfl, rfl, rfl, rfl, rfl, e2, hld, by simp only; rw [e5], rfl, rfl, ?_⟩
+  intro s0 e0 hse k hk hnames
+  obtain ⟨rfl, rfl⟩ : 30 + (layout (chunksOf ps)).length + 8 = s0 ∧ 30 + (layout (chunksOf ps)).length + 8 + f.payload.length = e0 := by
+    injection hse with hse; injection hse with h1 h2; exact ⟨h1, h2⟩
+  show ch'.get? k = _
+  rw [hprop k hnames, hget k hk]
 
 end ScanProof
